@@ -3,6 +3,9 @@ EXTENDS JetExpr
 cBinOps == {"+", "-", "*", "/", "%", "<", "<=", ">", ">=", "==", "!=", "&&", "||"}
 cShapesQ == {"U", "B1", "L2", "R2", "NEGL", "NEGR", "NEG3", "NOTB", "NOTL", "T1", "T2R", "T2L"}
 cPoolQ == {"iv7", "iv2", "in3", "f15", "f1", "chr", "f32v", "u7", "ss", "bt", "pf", "pt"}
+\* conditions (C05): logical and relational chains over truthy and falsy operands of every kind
+cShapesC == {"B1", "L2", "R2", "NOTB", "NOTL", "T1"}
+cPoolC == {"iv7", "f15", "ss", "se", "bt", "bf", "pt", "pf"}
 cShapesT == cShapesQ \cup {"L3"}
 cPoolT == {"iv7", "iv2", "in3", "iv1", "f15", "f1", "fv025", "ss", "se", "bt", "bf", "pt", "pf", "pi", "idx", "call", "paren", "fld", "cfld", "f32v", "u7", "chr"}
 cPoolU == {"iv7", "iv2", "in3", "iv1", "f15", "f2", "f1", "fv025", "ss", "sv", "se", "bt", "bf", "bv", "pt", "pf", "pi", "idx", "call", "paren", "fld", "cfld", "f32v", "u7", "u8v", "chr"}
